@@ -431,3 +431,129 @@ end
 
 end Codec
 end Jwt
+
+/-! ### reading a canonical dump back (the harness ships Go values to the driver in this format) -/
+namespace Jwt.Codec
+
+def unhexNib (c : Char) : Option Nat :=
+  if '0' ≤ c ∧ c ≤ '9' then some (c.toNat - 48)
+  else if 'a' ≤ c ∧ c ≤ 'f' then some (c.toNat - 87) else none
+
+/-- leading run of hex digits as bytes -/
+def takeHexBytes : Nat → Str → List Nat → List Nat × Str
+  | 0, s, acc => (acc.reverse, s)
+  | f+1, a :: b :: r, acc =>
+    match unhexNib a, unhexNib b with
+    | some x, some y => takeHexBytes f r ((x * 16 + y) :: acc)
+    | _, _ => (acc.reverse, a :: b :: r)
+  | _, s, acc => (acc.reverse, s)
+
+def utf8DecodeLoose : Nat → List Nat → Str → Option Str
+  | 0, _, _ => none
+  | _, [], acc => some acc.reverse
+  | f+1, b :: r, acc =>
+    if b < 0x80 then utf8DecodeLoose f r (Char.ofNat b :: acc)
+    else if b < 0xE0 then
+      match r with
+      | b1 :: r' => utf8DecodeLoose f r' (Char.ofNat ((b - 0xC0) * 64 + (b1 - 0x80)) :: acc)
+      | _ => none
+    else if b < 0xF0 then
+      match r with
+      | b1 :: b2 :: r' => utf8DecodeLoose f r' (Char.ofNat ((b - 0xE0) * 4096 + (b1 - 0x80) * 64 + (b2 - 0x80)) :: acc)
+      | _ => none
+    else
+      match r with
+      | b1 :: b2 :: b3 :: r' => utf8DecodeLoose f r' (Char.ofNat ((b - 0xF0) * 262144 + (b1 - 0x80) * 4096 + (b2 - 0x80) * 64 + (b3 - 0x80)) :: acc)
+      | _ => none
+
+def takeHexStr (s : Str) : Option (Str × Str) :=
+  let (bs, rest) := takeHexBytes (s.length + 1) s []
+  match utf8DecodeLoose (bs.length + 1) bs [] with
+  | some str => some (str, rest)
+  | none => none
+
+mutual
+def undumpVal : Nat → Str → Option (Val × Str)
+  | 0, _ => none
+  | _, [] => none
+  | f+1, c :: r =>
+    if c = 'T' then some (.bool true, r)
+    else if c = 'F' then some (.bool false, r)
+    else if c = '~' then some (.nil, r)
+    else if c = 's' then (match takeHexStr r with | some (s, r') => some (.str s, r') | none => none)
+    else if c = 'i' then
+      let (neg, r1) := match r with | '-' :: t => (true, t) | _ => (false, r)
+      let ds := r1.takeWhile Json.isDigit
+      if ds.isEmpty then none
+      else
+        let n : Int := digitsToNat ds
+        some (.int (if neg then -n else n), r1.dropWhile Json.isDigit)
+    else if c = '&' then (match undumpVal f r with | some (v, r') => some (.ptr v, r') | none => none)
+    else if c = 'j' then
+      (match takeHexStr r with
+       | some (s, r') => (match Json.parse s with | some j => some (.any j, r') | none => none)
+       | none => none)
+    else if c = '[' then
+      (match r with
+       | ']' :: r' => some (.list [], r')
+       | _ => match undumpVal f r with
+              | some (v, r1) => (match undumpTail f r1 with
+                                 | some (vs, r2) => some (.list (v :: vs), r2)
+                                 | none => none)
+              | none => none)
+    else if c = '<' then
+      (match r with
+       | '>' :: r' => some (.map [], r')
+       | _ => match undumpKV f r with
+              | some (kv, r1) => (match undumpKVTail f '>' r1 with
+                                  | some (kvs, r2) => some (.map (kv :: kvs), r2)
+                                  | none => none)
+              | none => none)
+    else if c = '{' then
+      (match r with
+       | '}' :: r' => some (.struct [], r')
+       | _ => match undumpKV f r with
+              | some (kv, r1) => (match undumpKVTail f '}' r1 with
+                                  | some (kvs, r2) => some (.struct (kv :: kvs), r2)
+                                  | none => none)
+              | none => none)
+    else none
+def undumpTail : Nat → Str → Option (List Val × Str)
+  | 0, _ => none
+  | f+1, input =>
+    match input with
+    | ']' :: r => some ([], r)
+    | ',' :: r => (match undumpVal f r with
+                   | some (v, r1) => (match undumpTail f r1 with
+                                      | some (vs, r2) => some (v :: vs, r2)
+                                      | none => none)
+                   | none => none)
+    | _ => none
+def undumpKV : Nat → Str → Option ((Str × Val) × Str)
+  | 0, _ => none
+  | f+1, input =>
+    match takeHexStr input with
+    | some (k, ':' :: r) => (match undumpVal f r with | some (v, r') => some ((k, v), r') | none => none)
+    | _ => none
+def undumpKVTail : Nat → Char → Str → Option (List (Str × Val) × Str)
+  | 0, _, _ => none
+  | f+1, close, input =>
+    match input with
+    | c :: r =>
+      if c = close then some ([], r)
+      else if c = ',' then
+        (match undumpKV f r with
+         | some (kv, r1) => (match undumpKVTail f close r1 with
+                             | some (kvs, r2) => some (kv :: kvs, r2)
+                             | none => none)
+         | none => none)
+      else none
+    | [] => none
+end
+
+def undump (s : Str) : Option Val :=
+  match undumpVal (s.length + 2) s with
+  | some (v, []) => some v
+  | _ => none
+
+end Jwt.Codec
